@@ -19,6 +19,10 @@ FID_WRAP = 'F-PY-ARRWRAP'
 FID_FPREC = 'F-PY-ARRWRAP-FPREC'
 FID_NUM = 'F-PY-NUMTEXT'
 FID_INFER = 'F-PY-PRECHECK-INFER'
+FID_NPS = 'F-PY-NPSCALAR'
+FID_EXC = 'F-PY-EXCCLASS'
+FID_SNAN = 'F-PY-SNAN'
+FID_CLASH = 'F-PY-ALIASCLASH'
 
 MANIFEST = dict(
     technique='Coq proof (induction over operation sequences) about a hand model of the generated Python classes whose template facts and '
@@ -160,6 +164,12 @@ def sx_x(x) -> str:
         return '(l%s)' % ''.join(' ' + sx_x(e) for e in x['l'])
     if 'd' in x:
         return '(d%s)' % ''.join(' (%d %s)' % (k, sx_x(e)) for k, _, e in x['d'])
+    if 'np' in x or 'nd0' in x:      # model: a one-element array stands for a NumPy scalar / 0-d array
+        return '(nd %s %s)' % (x.get('np') or x.get('nd0'), sx_x(x['x']))
+    if 'tuple' in x:
+        return '(l%s)' % ''.join(' ' + sx_x(e) for e in x['tuple'])
+    if 'f32bits' in x:
+        return '(nd f32%s)' % ''.join(' (v f%x)' % f64(struct.unpack('<f', struct.pack('<I', b_))[0]) if True else '' for b_ in x['f32bits'])
     if 'nd' in x:
         return '(nd %s%s)' % (x['nd'], ''.join(' ' + sx_x(e) for e in x['e']))
     if 'new' in x:
@@ -307,7 +317,8 @@ class Gen:
         if c == 8:
             return lit(vf(r.choice([3.7, -0.5, 0.0, float(min(hi, 2 ** 52)), 1e300]))), None, {'int_from_float'}
         if c == 9:
-            return lit(vf(r.choice([float('nan'), float('inf'), float('-inf')]))), None, {'int_from_nonfinite'}
+            x_ = r.choice([float('nan'), float('inf'), float('-inf')])
+            return lit(vf(x_)), 'reject', {'int_from_nonfinite'}
         if c == 10:
             return lit(r.choice([True, False])), None, {'int_from_bool'}
         if c == 11:
@@ -346,7 +357,8 @@ class Gen:
         if c == 8:
             return lit(vf(float('nan'))), None, {'float_nan'}
         if c == 9:
-            return lit(vi(r.choice([2 ** 70, 10 ** 400, -10 ** 400, 2 ** 53 + 1]))), None, {'float_from_bigint'}
+            z_ = r.choice([2 ** 70, 10 ** 400, -10 ** 400, 2 ** 53 + 1])
+            return lit(vi(z_)), ('reject' if (abs(z_) > 10 ** 300 or (mx and abs(z_) > mx)) else None), {'float_from_bigint'}
         if c == 10:
             return lit(r.choice([True, False])), None, {'float_from_bool'}
         if c == 11:
@@ -495,6 +507,85 @@ class Gen:
             vals = [r.choice([0, 1, 2, shi]) for _ in range(n)]
         return {'nd': src, 'e': [lit(vi(v)) for v in vals]}, exp, tags
 
+    def npmix(self, t, n, legal, tags):
+        """a list / tuple / bare value holding NumPy scalars, 0-d arrays, nested ndarrays and Python numbers, mixed"""
+        r = self.rng
+        et = t['elem']
+        tags = set(tags) | {'npmix'}
+        exp = 'accept' if legal else 'reject'
+        bad = nonint = False
+
+        def one():
+            nonlocal bad, nonint
+            src = r.choice(['py', 'py', 'i64', 'u64', 'i8', 'u8', 'u16', 'i32', 'f64', 'f32', 'f16', 'b'])
+            if et['k'] in ('uint', 'int'):
+                lo, hi = int_range(et)
+                v = r.choice([lo, hi, r.randint(lo, hi), r.randint(max(lo, -50), min(hi, 50)), hi + 1, lo - 1, hi + 45, 300, -1])
+            elif et['k'] == 'float':
+                v = r.choice([0, 1, -3, 1000, 70000, 10 ** 6])
+            else:
+                v = r.choice([0, 1, 2])
+            if src == 'py':
+                x = lit(r.choice([vi(v), vf(float(v))]) if abs(v) < 2 ** 52 else vi(v))
+            elif src == 'b':
+                v = v % 2
+                x = {'np': 'b', 'x': lit(bool(v))}
+            elif src[0] == 'f':
+                w = int(src[1:])
+                fv = float(v) + (r.choice([0.0, 0.0, 0.0, 0.5]) if abs(v) < 1000 else 0.0)
+                fmt = {16: '<e', 32: '<f', 64: '<d'}[w]
+                try:
+                    fv = struct.unpack(fmt, struct.pack(fmt, fv))[0]
+                except OverflowError:
+                    fv = 1.0
+                if fv != int(fv):
+                    nonint = True
+                v = fv
+                x = {r.choice(['np', 'np', 'nd0']): src, 'x': lit(vf(fv))}
+            else:
+                slo, shi = dt_range(src)
+                v = max(slo, min(shi, v))
+                x = {r.choice(['np', 'np', 'nd0']): src, 'x': lit(vi(v))}
+            if et['k'] in ('uint', 'int') and not int_range(et)[0] <= v <= int_range(et)[1]:
+                bad = True
+            if et['k'] == 'float' and et['w'] < 64 and abs(v) > FMAX[et['w']]:
+                bad = True
+            return x
+
+        form = r.choice(['list', 'list', 'list', 'tuple', 'nested_nd', 'bare'])
+        if form == 'bare' or n == 0:
+            x = one()
+            ok1 = (t['n'] == 1) if t['k'] == 'farr' else (t['cap'] >= 1)
+            exp = 'accept' if ok1 else 'reject'
+            tags = {'npmix', 'np_bare'}
+        elif form == 'nested_nd' and n >= 2 and n % 2 == 0 and et['k'] != 'bool':
+            src = r.choice(['f64', 'i64', 'f32', 'u16'])
+            halves = []
+            for _ in range(2):
+                es = []
+                for _ in range(n // 2):
+                    e = one()
+                    inner = e.get('x', e)
+                    es.append(inner if 'v' in inner else lit(vi(0)))
+                halves.append({'nd': src, 'e': es})
+            x = {'l': halves}
+            tags.add('np_nested_nd')
+            bad = bad or True if False else bad
+        else:
+            elems = [one() for _ in range(n)]
+            x = {'tuple': elems} if form == 'tuple' else {'l': elems}
+        if et['k'] in ('uint', 'int') and nonint:
+            exp = None                       # a non-integral float: truncated before the NPSCALAR fix, rejected after it
+            tags.add('nonintegral')
+        if bad:
+            exp = 'reject'
+            tags.add('npscalar')
+        if 'np_nested_nd' in tags:
+            exp = None if not bad else 'reject'   # values pass through the dtype of the nested arrays: only the clear cases are judged
+            if bad:
+                exp = None
+        return x, exp, tags
+
     def array(self, t, valid_only=False, depth=0):
         r = self.rng
         et = t['elem']
@@ -507,6 +598,8 @@ class Gen:
         exp = 'accept' if legal else 'reject'
         if not valid_only and k in ('uint', 'int', 'bool', 'float') and n <= 300 and r.random() < 0.2:
             return self.nd_any(t, n, legal, tags)
+        if not valid_only and k in ('uint', 'int', 'float', 'bool') and n <= 12 and r.random() < 0.12:
+            return self.npmix(t, n, legal, tags)
         if not valid_only and k in ('int', 'bool', 'float') and r.random() < 0.06:
             txt = r.choice(NUMTEXT)          # whole-value text for an array that cannot be string-like: never an array
             return lit(r.choice([vs(txt), vy(txt.encode())])), 'reject', {'numtext', 'arr_text_' + k}
@@ -1077,6 +1170,17 @@ def has_infer_value(x) -> bool:
     return False
 
 
+def has_np_value(x, in_list=False) -> bool:
+    """does the expression hold a NumPy scalar / 0-d array anywhere, or an ndarray nested in a list or tuple?"""
+    if isinstance(x, dict):
+        if 'np' in x or 'nd0' in x or ('nd' in x and in_list):
+            return True
+        return any(has_np_value(v, in_list=(k in ('l', 'tuple'))) for k, v in x.items())
+    if isinstance(x, list):
+        return any(has_np_value(v, in_list) for v in x)
+    return False
+
+
 def state_has_infer(state: str) -> bool:
     """a uint64 array of the printed state whose to_builtin() list numpy.asarray would infer as float64 with a rounded-up maximum"""
     import re as _re
@@ -1105,6 +1209,15 @@ def probe_cases(m: MDB) -> typing.List[typing.Tuple[dict, typing.List[dict]]]:
         one(s, [{'set': fi['vi16'], 'x': {'nd': 'f16', 'e': [lit(vf(32768.0)), lit(vf(1.0))]}}], [('reject', ['arrwrap', 'arrwrap_fprec', 'witness'])]),  # index 2
         one(s, [{'set': fi['va8'], 'x': lit(vy(b'00123'))}], [('reject', ['numtext', 'arr_bytes', 'arr_over_capacity', 'witness'])]),   # index 3: F-PY-NUMTEXT
         one(s, [{'set': fi['vu64'], 'x': L(0, 2 ** 64 - 1)}], [('accept', ['arr_len_legal', 'witness'])]),                      # index 4: F-PY-PRECHECK-INFER
+        one(s, [{'set': fi['va8'], 'x': {'l': [{'np': 'f64', 'x': lit(vf(300.0))}]}}], [('reject', ['npscalar', 'witness'])]),        # index 5: F-PY-NPSCALAR
+        one(s, [{'set': fi['n4'], 'x': lit(vf(float('inf')))}], [('reject', ['int_from_nonfinite', 'witness'])]),                  # index 6: F-PY-EXCCLASS
+        one(s, [{'set': fi['ff32'], 'x': {'f32bits': [0x7f800001, 0x3f800000]}}], [('accept', ['snan', 'witness'])]),               # index 7: F-PY-SNAN
+        one(s, [{'set': fi['va8'], 'x': {'l': [{'np': 'i64', 'x': lit(vi(300))}, lit(vf(1.0))]}}, {'set': fi['va8'], 'x': {'l': [{'nd': 'f64', 'e': [lit(vf(300.0)), lit(vf(1.0))]}]}},
+                {'set': fi['va8'], 'x': {'l': [{'nd0': 'f64', 'x': lit(vf(300.0))}]}}, {'set': fi['va8'], 'x': {'np': 'f64', 'x': lit(vf(300.0))}},
+                {'set': fi['va8'], 'x': {'l': [{'np': 'f64', 'x': lit(vf(2.0))}, lit(vi(3))]}}, {'set': fi['vu64'], 'x': {'l': [{'np': 'u64', 'x': lit(vi(2 ** 64 - 1))}, lit(vi(0))]}},
+                {'set': fi['va8'], 'x': {'tuple': [lit(vi(1)), lit(vi(2))]}}, {'set': fi['vf16'], 'x': {'l': [{'np': 'f64', 'x': lit(vf(1e6))}]}}],
+            [('reject', ['npscalar']), ('reject', ['npscalar']), ('reject', ['npscalar']), ('reject', ['npscalar', 'np_bare']), ('accept', ['npmix']), ('accept', ['npmix']),
+             ('accept', ['npmix']), ('reject', ['arrelem_float'])]),
         one(s, [{'set': fi['fb'], 'x': lit(vy(b'12'))}, {'set': fi['s'], 'x': lit(vs('0000123'))}, {'set': fi['vi16'], 'x': lit(vs('12'))},
                 {'set': fi['vf16'], 'x': lit(vy(b'2.5'))}, {'set': fi['vb'], 'x': lit(vs('0'))}, {'set': fi['va8'], 'x': lit(vy(b'12'))},
                 {'set': fi['s'], 'x': lit(vs('12345'))}, {'set': fi['n4'], 'x': lit(vs(' 1_0 '))}, {'set': fi['f32'], 'x': lit(vy(b'1e3'))},
@@ -1204,6 +1317,9 @@ def run_namespace(label: str, spec: dict, seed: int, n_cases: int, repo: str, ex
         res['witness'] = bool(w.get('steps') and w['steps'][0][0] == 'ok' and 'i200' in w['steps'][0][1])
         w2 = impl[1]
         res['witness_wrap'] = bool(w2.get('steps') and w2['steps'][0][0] == 'ok')      # uint8[<=4] = np.array([256, 1], int64) accepted
+        res['witness_nps'] = bool(impl[5].get('steps') and impl[5]['steps'][0][0] == 'ok')           # uint8[<=4] = [np.float64(300.0)] accepted ([44])
+        res['witness_exc'] = bool(impl[6].get('steps') and impl[6]['steps'][0][0] not in ('ok', 'ValueError'))   # n4 = inf raises OverflowError
+        res['witness_snan'] = bool(impl[7].get('steps') and impl[7]['steps'][0][0] == 'ok' and impl[7].get('ser') == 'differ')
         w5 = impl[4]
         res['witness_infer'] = bool(w5.get('steps') and w5['steps'][0][0] != 'ok')    # uint64[<=3] = [0, 2**64-1] rejected
         w4 = impl[3]
@@ -1217,7 +1333,8 @@ def run_namespace(label: str, spec: dict, seed: int, n_cases: int, repo: str, ex
 
 
 def finish_namespace(res: dict, exe: typing.Optional[str], quirk: bool, wrap_live: bool = False, fprec_live: bool = False,
-                     num_live: bool = False, infer_live: bool = False) -> None:
+                     num_live: bool = False, infer_live: bool = False, nps_live: bool = False, exc_live: bool = False,
+                     snan_live: bool = False) -> None:
     """model run (needs the probed quirk) and all comparisons"""
     m, cases, impl, impl_defaults = res.pop('_pending')
     convs, conv_impl = res.pop('_convs', ([], []))
@@ -1283,6 +1400,13 @@ def finish_namespace(res: dict, exe: typing.Optional[str], quirk: bool, wrap_liv
             agrees = True
             fprec_hit = fprec_live and ('arrwrap_fprec' in ex['tags'] or has_fprec_value(case['ops'][k])) and (
                 outcome == 'ok' or (mdl is not None and k < len(mdl['steps']) and mdl['steps'][k][1] != state))
+            if nps_live and ('npscalar' in ex['tags'] or 'npmix' in ex['tags'] or 'nonintegral' in ex['tags'] or has_np_value(case['ops'][k])) and mdl is not None and (
+                    k >= len(mdl['steps']) or (mdl['steps'][k][0] == 'ok') != (outcome == 'ok') or mdl['steps'][k][1] != state):
+                # F-PY-NPSCALAR on this tree: which NumPy-typed lists slip through depends on np.asarray's dtype inference, which the model
+                # does not reproduce; count the instance and do not compare the rest of the case
+                res['known_instances'] += 1
+                bump('known_npscalar_instances')
+                break
             infer_hit = infer_live and has_infer_value(case['ops'][k]) and outcome != 'ok' and (
                 mdl is not None and k < len(mdl['steps']) and mdl['steps'][k][0] == 'ok')
             if infer_hit:
@@ -1309,6 +1433,8 @@ def finish_namespace(res: dict, exe: typing.Optional[str], quirk: bool, wrap_liv
                 problems.append(('valid_rejected', outcome))
             if ex['expect'] == 'reject' and outcome == 'ok':
                 problems.append(('invalid_accepted', ','.join(ex['tags'])))
+            if ex['expect'] == 'reject' and outcome not in ('ok', 'ValueError'):
+                problems.append(('wrong_exception_class', outcome))      # the text says: raises ValueError
             if ex['kind'] == 'set' and outcome != 'ok' and state != prev_state:
                 problems.append(('raising_setter_changed_object', outcome))
             if not state.startswith('?'):
@@ -1324,7 +1450,9 @@ def finish_namespace(res: dict, exe: typing.Optional[str], quirk: bool, wrap_liv
                 # model (when it could be built) predicts exactly this outcome and state
                 is_known = agrees and ((quirk and ((cls == 'invalid_accepted' and trig) or cls == 'elem_range'))
                                        or (wrap_live and cls == 'invalid_accepted' and 'arrwrap' in ex['tags'])
-                                       or (num_live and cls == 'invalid_accepted' and 'numtext' in ex['tags']))
+                                       or (num_live and cls == 'invalid_accepted' and 'numtext' in ex['tags'])
+                                       or (nps_live and cls == 'invalid_accepted' and 'npscalar' in ex['tags'])) or (
+                    exc_live and cls == 'wrong_exception_class' and detail in ('OverflowError', 'TypeError'))
                 if is_known:
                     res['known_instances'] += 1
                 else:
@@ -1354,6 +1482,9 @@ def finish_namespace(res: dict, exe: typing.Optional[str], quirk: bool, wrap_liv
                                       'case': case, 'impl': [rt[:100], final[:600]], 'type': m.order[case['tid']]})
         if tainted and strict_bad:
             bump('rt_skipped_inplace')
+        elif snan_live and 'snan' in [t_ for e_ in exps for t_ in e_['tags']] and im.get('ser') == 'differ':
+            res['known_instances'] += 1
+            bump('known_snan_instances')
         elif infer_live and rt.startswith('raises') and state_has_infer(final):
             res['known_instances'] += 1
             bump('known_infer_instances')
@@ -1505,6 +1636,8 @@ def main(chk: core.Check, replay: typing.Optional[str] = None) -> int:
             sub = random.Random(chk.rng.getrandbits(64))
             specs.append(('r%d' % i, dsdlgen.generate(sub, n_types=12 if quick else 26, budget=600 if quick else 1200), 700 if quick else 14000))
     if not replay:
+        specs.append(('clash', dsdlgen.single({'c18c/Foo.1.0.dsdl': 'uint8 a\n@sealed\n', 'c18c/Foo_1.0.1.dsdl': 'uint8 a\nuint8 b\n@sealed\n',
+                                               'c18c/Holder.1.0.dsdl': 'Foo.1.0 f\nFoo_1.0.1[<=2] g\n@sealed\n'}), 60))
         specs.append(('kw', keyword_namespace(random.Random(chk.rng.getrandbits(64))), 500 if quick else 6000))
     seeds = [chk.rng.getrandbits(32) for _ in specs]
     with concurrent.futures.ThreadPoolExecutor(max_workers=min(6, len(specs))) as ex:
@@ -1549,6 +1682,42 @@ def main(chk: core.Check, replay: typing.Optional[str] = None) -> int:
     num_live = bool(witness_num) and chk.is_known(FID_NUM)
     if num_live:
         chk.report_known(FID_NUM)
+    probe_res = next((r for r in results if r['label'] == 'probe'), {})
+    gtext = ''
+    try:
+        gtext = open(os.path.join(core.COQ, 'theories', 'Generated', 'Gen_PyObj.v'), encoding='utf-8').read()
+    except OSError:
+        pass
+    lives = {}
+    for fid, wkey, fact, fact_when_fixed in ((FID_NPS, 'witness_nps', 't_src_exact := ', 'true'), (FID_EXC, 'witness_exc', 'exc_overflow_wrapped_gen : bool := ', 'true'),
+                                             (FID_SNAN, 'witness_snan', None, None)):
+        w_ = probe_res.get(wkey)
+        if fact and w_ is not None and fact in gtext and ((fact + fact_when_fixed) in gtext) == bool(w_):
+            broken.append('the scanned template says %s%s but the witness of %s %s' % (fact, 'true' if (fact + 'true') in gtext else 'false', fid,
+                                                                                     'reproduces' if w_ else 'does not reproduce'))
+        lives[fid] = bool(w_) and chk.is_known(fid)
+        if lives[fid]:
+            chk.report_known(fid)
+        if w_ and not chk.is_known(fid):
+            broken.append('witness of %s reproduces but the finding is not listed as known' % fid)
+        chk.notes.append('%s: witness %s' % (fid, 'reproduces' if w_ else 'does not reproduce'))
+    clash_res = next((r for r in results if r['label'] == 'clash'), None)
+    witness_clash = None if clash_res is None or clash_res.get('build_failed') else any('CLASS-IDENTITY' in x for x in clash_res.get('path_bad', []))
+    try:
+        atext = open(os.path.join(core.COQ, 'theories', 'Generated', 'Gen_PyAlias.v'), encoding='utf-8').read()
+    except OSError:
+        atext = ''
+    if witness_clash is not None and 'alias_guard_gen' in atext and ('alias_guard_gen : bool := true' in atext) == bool(witness_clash):
+        broken.append('the translated alias filter has alias_guard_gen=%s but the package of c18c %s' % (
+            'alias_guard_gen : bool := true' in atext, 'binds Foo_1_0 to the class of Foo_1.0.1' if witness_clash else 'keeps Foo_1_0'))
+    lives[FID_CLASH] = bool(witness_clash) and chk.is_known(FID_CLASH)
+    if lives[FID_CLASH]:
+        chk.report_known(FID_CLASH)
+        clash_res.pop('_pending', None)          # every object of that namespace holds the wrong class: nothing to compare
+        clash_res.pop('_convs', None)
+    if witness_clash and not chk.is_known(FID_CLASH):
+        broken.append('witness of %s reproduces but the finding is not listed as known' % FID_CLASH)
+    chk.notes.append('%s: Foo.1.0 beside Foo_1.0.1 %s' % (FID_CLASH, 'clash (Foo_1_0 is the class of Foo_1.0.1)' if witness_clash else 'do not clash'))
     witness_infer = next((r.get('witness_infer') for r in results if r['label'] == 'probe'), None)
     infer_live = bool(witness_infer) and chk.is_known(FID_INFER)
     if infer_live:
@@ -1571,7 +1740,7 @@ def main(chk: core.Check, replay: typing.Optional[str] = None) -> int:
         chk.report_known(FID_FPREC)
     for r in results:
         if '_pending' in r:
-            finish_namespace(r, exe, quirk, wrap_live, fprec_live, num_live, infer_live)
+            finish_namespace(r, exe, quirk, wrap_live, fprec_live, num_live, infer_live, lives[FID_NPS], lives[FID_EXC], lives[FID_SNAN])
 
     selftest_bad = float_selftest(exe, chk.rng, 300 if quick else 3000) if exe else []
     if selftest_bad:
